@@ -625,6 +625,16 @@ pub fn c06(out: &mut Out, thorough: bool) {
             let _ = rng;
         }
     };
+    // "every canonical FEN of a legally reachable position is accepted": the positions were reached by legal play,
+    // the text is the harness's own rendering, and the specification answer is "accepted, as this position"
+    for t in base.iter() {
+        let v = view(&t.board);
+        if v.half > 9999 || v.full > 9999 {
+            continue;
+        }
+        let txt = fen_of_view(&v);
+        out.case("reachable-is-accepted", true, format!("fen roundtrip {}", pos64(&v)), || parse_answer(txt.as_bytes()));
+    }
     for f in corpus.iter().chain(fens.iter().take(2000)) {
         emit(out, "valid-fen", f.as_bytes(), &mut rng);
         // truncations at every length
